@@ -664,12 +664,22 @@ def memo_tie(ctx, batch, tr, inp):
 def part2(ctx, env):
     from pony.orm import asttranslation, decompiling
     E, D, db = env.E, env.D, env.db
-    names = ['string2ast', 'ast', 'extractors', 'adapted', 'csql', 'tr']
+    names = ['string2ast', 'ast', 'extractors', 'adapted', 'csql', 'tr', 'compile']
     saved = (core.string2ast_cache, decompiling.ast_cache, asttranslation.extractors_cache, core.adapted_sql_cache, db._constructed_sql_cache)
-    dicts = {n: SchedDict(env, n) for n in names[:-1]}
+    dicts = {n: SchedDict(env, n) for n in names[:5]}
     core.string2ast_cache = dicts['string2ast']; decompiling.ast_cache = dicts['ast']
     asttranslation.extractors_cache = dicts['extractors']; core.adapted_sql_cache = dicts['adapted']
     db._constructed_sql_cache = dicts['csql']
+    # a yield point INSIDE the miss branch of create_extractors (each external expression is compiled there): a thread switch
+    # between the lookup, the filling of the extractors dict and the store becomes schedulable
+    real_compile = compile
+    def yielding_compile(*a, **kw):
+        tid = getattr(tl, 'tid', None)
+        if tid is not None and 'compile' in tl.yield_at:
+            tl.sched.point(tid, ('compile', 'call'))
+            tl.log.append({'cache': 'compile', 'op': 'compile', 'key': None, 'found': True})
+        return real_compile(*a, **kw)
+    asttranslation.compile = yielding_compile
     def clear_all():
         for d in dicts.values(): dict.clear(d)
         for ent in (E, D, env.M):
@@ -754,6 +764,8 @@ def part2(ctx, env):
     finally:
         env.clear_caches = saved_clear
         core.string2ast_cache, decompiling.ast_cache, asttranslation.extractors_cache, core.adapted_sql_cache, db._constructed_sql_cache = saved
+        try: del asttranslation.compile          # back to the builtin
+        except AttributeError: pass
 
 
 # ---------------------------------------------------------------- part 3: cross-thread object use
